@@ -145,9 +145,16 @@ hs.append({"name": "h10_recycle", "src": "h10_recycle.c", "env": ENV, "tus": [],
            "bound": "one KSI_AsyncHandle released through KSI_AsyncHandle_free with ARBITRARY state, id, error fields, send progress, clocks and origin and with request, response, message, buffer and user context attached, "
                     "into ctx->asyncHandleRecycle; then re-constructed and submitted to an empty cache of size 1"})
 
+hs.append({"name": "h11_curl_recycle", "src": "h11_curl_recycle.c", "env": ENV, "tus": [], "unwind": 12, "timeout": 300, "max_replays": 8,
+           "unwindset": ["KSI_AsyncHandle_free:3", "KSI_AsyncHandle_cleanup:3"],
+           "functions": ["CurlAsyncRequest_new", "CurlAsyncRequest_free", "curlCallback_receive"],
+           "bound": "one CurlAsyncRequest (net_http_curl_async.c) released through CurlAsyncRequest_free into client->reqRecycle with ARBITRARY receive-buffer fill level 0..8 and content (capacity 8 concrete), arbitrary error text, "
+                    "with / without a request handle (per instance); re-constructed; one 3-byte chunk delivered through curlCallback_receive",
+           "instances": [I("with_handle", "OLD_HAS_HANDLE=1"), I("no_handle", "OLD_HAS_HANDLE=0")]})
+
 plan = {
  "property": "C13",
- "outside": "cache sizes above 4 (step harnesses) / 2 (histories); histories longer than 4 operations; the transports themselves (net_tcp_async.c is C14's subject, net_http_curl_async.c needs libcurl); "
+ "outside": "cache sizes above 4 (step harnesses) / 2 (histories); histories longer than 4 operations; the transports themselves (net_tcp_async.c is C14's subject; HTTP async transport net_http_curl_async.c: only the request recycler is covered, H-11, with libcurl stubbed); "
             "TLV parsing/serialisation, HMAC computation and signature construction from a response (KSI_AsyncHandle_getSignature); allocation failure; real clocks; "
             "liveness beyond one call (that a handle the transport never reports on is eventually returned)",
  "assumptions": [
@@ -157,6 +164,7 @@ plan = {
   "M4 transport stub (the four client callbacks), contract read off net_tcp_async.c:382-511: addRequest accepts (state WAITING_FOR_DISPATCH, reqTime = now, keeps the reference) or refuses without touching the handle; dispatch moves handles it holds from WAITING_FOR_DISPATCH to WAITING_FOR_RESPONSE or ERROR and returns OK / CONNECTION_CLOSED / another error; getResponse hands out queued raw responses; it never alters a handle in another state (net_tcp_async.c reqQueue_clearWithError does not check the state - outside this model)",
   "M5 clock: time() constant during one call, non-decreasing between calls, < 2^40; difftime(a,b) = (double)(a-b); quick tier additionally assumes lemma L ((double)x > (double)T <=> x > T for 0 <= x < 2^40), which harness h0_lemma proves and the thorough tier does not use",
   "handle recycling off (ctx->asyncHandleRecycle == NULL) in H-1..H-9: every release is a real free(), so a stale reference is a use-after-free for CBMC; the recycler itself is the subject of H-10 (a handle released with arbitrary contents is re-constructed: every field as fresh)",
+  "H-11: curl_easy_init / curl_easy_reset / curl_easy_cleanup are stubs over an opaque easy handle; no other libcurl function is reachable from the recycler and the write callback",
   "no push-configuration callback on the KSI_CTX; service-level callback presence is an instance parameter of H-3",
   "KSI_AbstractAsyncService_new (net.c) modelled as plain allocation with all callbacks NULL (H-8)",
   "function-pointer restrictions of H-7/H-8 (respCtx_free in {KSI_Config_free, KSI_AggregationResp_free}) are proof obligations inserted by goto-instrument, not assumptions"
@@ -167,12 +175,12 @@ plan = {
                 "operation of net_async.c, each proved as a one-step contract from an ARBITRARY Inv-state with cache sizes 1..2 (thorough 1..4): submission (cache-full exactly at the configured size, free slot, id = generation<<32|slot, generation steps on cursor wrap, "
                 "nothing retained on refusal), reply matching (only the WAITING_FOR_RESPONSE handle with the same full 64-bit id changes; unknown/stale-generation/duplicate/early replies change nothing), configuration delivery, error fan-out, "
                 "finalisation (returned at most once, only in a final state, timeouts only after the configured time or with timeout 0, nothing finished left behind), one service round (errors only with the cause that occurred, waiting = pending + received) and "
-                "batch processing of <= 2 raw responses (nothing applied from unparsable/unauthenticated data). A bounded-history harness drives 3-4 public operations from the constructors with an exactly-once monitor; H-10 shows that a handle taken from the per-context recycle list after being released in an arbitrary state equals a fresh one in every field and is accepted like one. "
+                "batch processing of <= 2 raw responses (nothing applied from unparsable/unauthenticated data). A bounded-history harness drives 3-4 public operations from the constructors with an exactly-once monitor; H-11 covers the request recycler of the HTTP (libcurl) async transport - and nothing else of that file: a CurlAsyncRequest released with an arbitrary receive-buffer fill level is handed out again with an empty buffer and the next chunk is stored alone; H-10 shows that a handle taken from the per-context recycle list after being released in an arbitrary state equals a fresh one in every field and is accepted like one. "
                 "Defects found: F14 (the cache-full test used == on a count that configuration handles can push past the cache size: the next KSI_AsyncService_addRequest looped forever) - the loop is repaired in /repo (a60d80b); "
                 "F9 (a second configuration request drops the first handle, pending drifts) and the counting part of F14 (configuration handles are accepted without a room check, outstanding can exceed the cache size by one) are recorded as known findings "
                 "(harness/C13/known_entries.json; they affect only instances labelled cnf_*/both_* of h1_add and f9_*/f14_* of h8_history) - see FINDINGS.md; with the full proposed patch every harness passes without exceptions.",
   "level_note": "Trusted base: payload-object, PDU-layer, status-conversion, transport and clock models M1-M5 (plan.json assumptions); aggregator flavour throughout, extender flavour in three instances. "
-                "Outside: cache sizes > 4, histories > 4 operations, real transports (TCP is C14), TLV/HMAC/signature building, allocation failure, eventual return of a handle on which the transport stays silent. "
+                "Outside: cache sizes > 4, histories > 4 operations, real transports (TCP is C14; HTTP async transport: only the request recycler is covered), TLV/HMAC/signature building, allocation failure, eventual return of a handle on which the transport stays silent. "
                 "The step from the bounded cache sizes to arbitrary ones rests on the code being uniform in the size (by reading, not proved)."
  },
  "harnesses": hs
